@@ -173,6 +173,8 @@ def run_verus_units(pid, unit_names, out, tier, variants=None):
                 out.violations.append({'obligation': oid, 'unit': uname, 'function': pc.name, 'repo': pc.origin,
                                        'message': f['message'], 'spans': f['spans'], 'verifier_output': f['rendered'],
                                        'generated_file': res.path, 'hint_only': hint_only})
+        if tier == 'thorough' and not res.undecided:
+            _thorough_extras(pid, uname, mod, U, res, out)
         # failures in untagged pieces of the unit (helpers): they make this unit's premises unsound
         for f in res.failures:
             pc = next((p for p in U.pieces if p.name == f['piece']), None)
@@ -183,6 +185,31 @@ def run_verus_units(pid, unit_names, out, tier, variants=None):
             if oid in allk:
                 continue
             out.undecided.append(f'unit {uname}: helper {f["piece"]} (not tagged {pid}) fails: {f["message"]}')
+
+
+def _thorough_extras(pid, uname, mod, U, res, out):
+    """thorough tier: (1) re-run the unit with a second SMT seed - a function whose verdict flips is undecided;
+    (2) vacuity canaries - every function under contract must REJECT `assert(false)` at its body start."""
+    seed = int(os.environ.get('VERIF_SEED') or 0) + 17
+    r2 = verusrun.run_unit(U, U.render(), extra_args=['--smt-option', f'smt.random_seed={seed}'])
+    flips = [n for n, st in res.fn_status.items() if r2.fn_status.get(n) != st]
+    if not r2.ok or flips:
+        out.undecided.append(f'unit {uname}: verdict not stable under SMT seed {seed}: {flips or r2.undecided}')
+    out.extra.setdefault('second_seed', []).append({'unit': uname, 'seed': seed, 'verified': r2.verified, 'errors': r2.errors, 'stable': not flips})
+    os.environ['VX_CANARY'] = '1'
+    try:
+        Uc = mod.build(REPO)
+        tc = Uc.render()
+    finally:
+        os.environ.pop('VX_CANARY', None)
+    Uc.name = U.name + '_canary'
+    rc = verusrun.run_unit(Uc, tc)
+    exec_fns = [pc.name for pc in Uc.pieces if pc.kind == 'fn' and '__vx_canary' in pc.text]
+    failed = {f['piece'] for f in rc.failures if 'assert' in f['message'].lower()}
+    vac = [n for n in exec_fns if n not in failed]
+    if not rc.ok or vac:
+        out.undecided.append(f'unit {uname}: vacuity canary NOT rejected for {vac or rc.undecided} (contradictory requires?)')
+    out.extra.setdefault('canaries', []).append({'unit': uname, 'functions': len(exec_fns), 'rejected': len(exec_fns) - len(vac)})
 
 
 def write_replay(pid, v, inputs=None):
